@@ -190,3 +190,49 @@ func init() {
 		assumptions: append([]string{"while known finding C04-K1 is listed: no message log time equals 2^64-1"}, commonAssumptions...),
 	}
 }
+
+func init() {
+	checkTable["C04"] = &checkSpec{
+		needEnd: true,
+		jobs: func(tier string) []*Job {
+			var js []*Job
+			add := func(n, per, topics, idx, ord, spell int) {
+				if idx == 0 && ord != 0 {
+					return
+				}
+				js = append(js, &Job{Module: "mcap", Harness: "VC04Select", Params: P("n", n, "per", per, "topics", topics, "idx", idx, "ord", ord, "spell", spell), TimeoutS: 900})
+			}
+			if tier == "quick" {
+				for spell := 0; spell <= 8; spell++ {
+					add(3, 2, spell%6, 1, spell%3, spell)
+					add(3, 2, (spell+1)%6, 0, 0, spell)
+				}
+				add(4, 2, 3, 1, 1, 0)
+				add(4, 2, 1, 1, 2, 4)
+				add(3, 1, 5, 1, 2, 1)
+				return js
+			}
+			for _, shape := range [][2]int{{3, 1}, {4, 2}} {
+				for topics := 0; topics <= 5; topics++ {
+					for idx := 0; idx <= 1; idx++ {
+						for ord := 0; ord <= 2; ord++ {
+							for spell := 0; spell <= 8; spell++ {
+								if shape[0] == 4 && spell >= 5 {
+									continue
+								}
+								add(shape[0], shape[1], topics, idx, ord, spell)
+							}
+						}
+					}
+				}
+			}
+			return js
+		},
+		bounds: map[string]any{
+			"quick":    map[string]any{"files": "3 messages/2 chunks and 4 messages/3 chunks, 3 channels (two share topic a, one has no message)", "symbolic": "all log times, window start and end (64 bit, start<=end)", "enumerated": "9 spellings of the window x topic sets {none,a,b,ab,unknown,a+unknown} x indexed/non-indexed x 3 orders (a diagonal sample of 21 jobs)"},
+			"thorough": map[string]any{"files": "as quick", "enumerated": "the full product: 6 topic sets x indexed/non-indexed x 3 orders x 9 spellings (3-message file), x 5 spellings (4-message file)"},
+		},
+		outside:     append([]string{"negative arguments to the deprecated int64 options", "windows with start > end (rejected by the API)"}, outsideCommon...),
+		assumptions: commonAssumptions,
+	}
+}
